@@ -38,7 +38,7 @@ func isolationStep(t *rapid.T, w *world.World) world.Action {
 		}
 		return w.GenBlock(t, 0)
 	}
-	weights := map[string]int{"block": 10, "update": 8, "vmsg": 12, "remove": 4, "push": 6, "bulk-optin": 3, "infra": 3, "staking": 1}
+	weights := map[string]int{"block": 10, "update": 8, "vmsg": 12, "remove": 4, "push": 6, "bulk-optin": 3, "infra": 5, "bulk-infra": 3, "staking": 1}
 	switch world.Weighted(t, "kind", weights) {
 	case "update":
 		if a, ok := w.GenUpdateConsumer(t, isoOpts); ok {
@@ -68,6 +68,24 @@ func isolationStep(t *rapid.T, w *world.World) world.Action {
 			}
 			if len(sub) > 0 {
 				return world.Action{Kind: world.KMulti, Sender: v, Sub: sub}
+			}
+		}
+	case "bulk-infra":
+		// one owner changes the infraction parameters of all its launched consumers in one tx: same due time
+		byOwner := map[string][]string{}
+		for _, id := range w.ConsumersInPhase(world.PhLaunched) {
+			o := w.OwnerName(w.ObserveConsumer(id).Owner)
+			if o != "" && o != "gov" {
+				byOwner[o] = append(byOwner[o], id)
+			}
+		}
+		for _, o := range []string{"alice", "bob", "carol"} {
+			if len(byOwner[o]) >= 2 && !w.Busy(o) {
+				var sub []world.Action
+				for _, id := range byOwner[o] {
+					sub = append(sub, world.Action{Kind: world.KUpdateConsumer, Consumer: id, Spec: &world.ConsumerSpec{Infraction: genInfraction(t)}})
+				}
+				return world.Action{Kind: world.KMulti, Sender: o, Sub: sub}
 			}
 		}
 	case "infra":
